@@ -1,0 +1,39 @@
+//! Verification re-exports for the Kademlia internals (`--cfg litep2p_verif` only).
+
+pub use super::{
+    bucket::{KBucket, KBucketEntry},
+    message::KademliaMessage,
+    query::{QueryAction, QueryEngine, QueryId},
+    record::{ContentProvider, Key as RecordKey, PeerRecord, ProviderRecord, Record},
+    routing_table::RoutingTable,
+    store::{MemoryStore, MemoryStoreAction, MemoryStoreConfig},
+    types::{ConnectionType, Distance, KademliaPeer, Key, KeyBytes},
+    Quorum,
+};
+
+use crate::PeerId;
+
+/// Raw 32 key bytes of a Kademlia key.
+pub fn key_bytes<T: Clone>(key: &Key<T>) -> [u8; 32] {
+    key.verif_raw()
+}
+
+/// Kademlia key of a peer (SHA-256 of the peer id bytes).
+pub fn peer_key(peer: PeerId) -> Key<PeerId> {
+    Key::from(peer)
+}
+
+/// Kademlia key of a record key (SHA-256 of the raw record key).
+pub fn record_key(key: &RecordKey) -> Key<RecordKey> {
+    Key::new(key.clone())
+}
+
+/// Peer id / key / connection type / address count of a routing-table entry.
+pub fn peer_info(peer: &KademliaPeer) -> (PeerId, [u8; 32], ConnectionType, usize) {
+    (
+        peer.peer,
+        peer.key.verif_raw(),
+        peer.connection,
+        peer.address_store.addresses.len(),
+    )
+}
